@@ -9,7 +9,9 @@ EXPLANATION = (
     "says on_panic_catch; (R3) no Result carrying a PanicError/RuntimeError/JoinError is discarded (table exception: Spawner::terminate); "
     "(R4) every activate() is post-dominated by deactivate() on the same receiver and, in the event handlers and the start-up loop, "
     "followed by buf_process on every returning path (table exception: the `?` return in raw_ndl); (R5) the custom lock guards release "
-    "in Drop. Decides these necessary conditions only; not that healthy modules behave as if the faulty one fell silent.")
+    "in Drop. "
+    '(R2 also: each entry point consumes the harness outcome with its tabled consumer (catch vs pass) and sim-end teardown reaches every module; R5 also, shared with C09.R1: every handler invocation is dominated by active == true, which is what keeps a panicked module inert.) '
+    "Decides these necessary conditions only; not that healthy modules behave as if the faulty one fell silent.")
 ASSUMPTIONS = ["catch_unwind catches every unwinding panic (panic=unwind build)", "processing elements are simulator-side code, not covered by the statement"]
 
 NR = 'des::net::runtime::'
